@@ -39,11 +39,26 @@ func (stressArea) Gen(r *hx.Rng, n int, tier string, emit func(string)) {
 
 func (stressArea) Run(line string) string { return stressParent(line) }
 
+// hangs counts the configurations that ended in a hang; after three of them the remaining ones are not run any more
+// (each hang costs its 5 s deadline; three replays are enough for a verdict).
+var hangs atomic.Int32
+
 func stressParent(line string) string {
 	f := strings.Fields(line)
 	if len(f) != 8 || f[0] != "stress" {
 		return "bad-op"
 	}
+	if hangs.Load() >= 3 {
+		return "ok not-run (three configurations of this run already hung)"
+	}
+	res := stressParent1(f)
+	if strings.HasPrefix(res, "FAIL hang") {
+		hangs.Add(1)
+	}
+	return res
+}
+
+func stressParent1(f []string) string {
 	ctx, cancel := context.WithTimeout(context.Background(), 60*time.Second)
 	defer cancel()
 	cmd := exec.CommandContext(ctx, os.Args[0], append([]string{"child-stress"}, f...)...)
@@ -135,10 +150,49 @@ func attempt(r *hx.Rng, period time.Duration, users, uses int, target string, ph
 		return false
 	}
 
+	// SetCap calls (lowering and raising) mixed into the run; maxCap = the largest cap a limiter ever has
+	maxCap := make([]int, len(lims))
+	for i := range lims {
+		maxCap[i] = lims[i].cap
+	}
+	type capChange struct{ lim, cap int }
+	var changes []capChange
+	if r.Chance(2, 3) {
+		for i, k := 0, r.Range(1, 12); i < k; i++ {
+			li := r.Intn(len(lims))
+			nc := hx.Pick(r, []int{0, 1, lims[li].cap / 2, lims[li].cap - 1, lims[li].cap + 2, r.Range(0, 30)})
+			if nc < 0 {
+				nc = 0
+			}
+			changes = append(changes, capChange{li, nc})
+			if nc > maxCap[li] {
+				maxCap[li] = nc
+			}
+		}
+	}
+
 	var mu sync.Mutex
 	var all []issued
 	start := make(chan struct{})
 	var wg sync.WaitGroup
+	if len(changes) > 0 {
+		cr := r.Fork()
+		wg.Add(1)
+		go func() {
+			defer wg.Done()
+			<-start
+			for _, ch := range changes {
+				lims[ch.lim].l.SetCap(ch.cap)
+				if cr.Chance(1, 2) {
+					runtime.Gosched()
+				}
+				if cr.Chance(1, 4) {
+					_ = lims[ch.lim].l.Cap(true)
+					_ = lims[ch.lim].l.LastUsed()
+				}
+			}
+		}()
+	}
 	for u := 0; u < users; u++ {
 		ur := r.Fork()
 		wg.Add(1)
@@ -178,10 +232,10 @@ func attempt(r *hx.Rng, period time.Duration, users, uses int, target string, ph
 		cwg.Add(1)
 		go closer(0, r.Intn(3000))
 	}
-	phase.Store(fmt.Sprintf("Close(%s) concurrently with ticks and Use calls", target))
+	phase.Store(fmt.Sprintf("Close(%s) concurrently with ticks, Use and SetCap calls", target))
 	close(start)
 	cwg.Wait()
-	phase.Store("Use calls (Close has returned)")
+	phase.Store("Use / SetCap calls (Close has returned)")
 	wg.Wait()
 
 	phase.Store("Closed() after Close")
@@ -233,8 +287,8 @@ func attempt(r *hx.Rng, period time.Duration, users, uses int, target string, ph
 			return fmt.Sprintf("Use(%d) answered %s", q.amt, got)
 		case q.amt == 0 && got != "nil" && got != "err-closed":
 			return fmt.Sprintf("Use(0) answered %s", got)
-		case q.amt > lims[q.lim].cap && got != "err-cap" && got != "err-closed":
-			return fmt.Sprintf("Use(%d) on a limiter of capacity %d answered %s", q.amt, lims[q.lim].cap, got)
+		case q.amt > maxCap[q.lim] && got != "err-cap" && got != "err-closed":
+			return fmt.Sprintf("Use(%d) on a limiter whose capacity never exceeded %d answered %s", q.amt, maxCap[q.lim], got)
 		case q.amt > 0 && got == "err-neg", got == "err-other":
 			return fmt.Sprintf("Use(%d) answered %s", q.amt, got)
 		}
